@@ -240,7 +240,8 @@ def rule_rot(ctx) -> RuleResult:
         "no origin term and the cached result does: cells are rotated about the origin, not about (0,0,0); (b) the cell "
         "sizes feeding BlockModel centroids are signed differences of the delimiters: nothing on the flow from the "
         "delimiters to the cache discards the sign or the order (abs / sort / unique); (c) all grid classes apply their rotation / dip "
-        "matrices in the same sense: matrix @ columns or rows @ matrix.T, never rows @ matrix (the inverse rotation)",
+        "matrices in the same sense: matrix @ columns or rows @ matrix.T, never rows @ matrix (the inverse rotation); (d) no floor "
+        "division / rounding on the flow of values (not of indices) from the cell records and sizes to the centres",
         floor=6,
     )
     p = ctx.p
@@ -310,6 +311,26 @@ def rule_rot(ctx) -> RuleResult:
                 res.find(K.name, "centroids", "the rotation matrix is applied in the opposite sense to the sibling grid classes", f"{g.module.relpath}:{prod.lineno}",
                          "M @ columns and rows @ M.T are the same rotation, rows @ M is the inverse one: this class turns its cells by -rotation where "
                          "the other grid classes (same matrix constructors, same angle convention) turn theirs by +rotation")
+    # (d) a centre is computed in real arithmetic: no floor division on the flow to the cached / returned centres
+    for K in p.subclasses(p.cls("GridObject")):
+        pr = K.props.get("centroids")
+        if pr is None or pr.getter is None or pr.getter.cls is not K:
+            continue
+        g = ctx.view(pr.getter)
+        sn = g.self_name or "self"
+        fl = Flow(g.node)
+        flows = []
+        for r in ast.walk(g.node):
+            if isinstance(r, ast.Return) and r.value is not None and fl.nodes_of(r.value):
+                flows += list(fl.atoms(r.value, skip_index=True, builders=True))
+        for f in [f for (pn, f, _g) in memo_getters(K) if pn == "centroids"]:
+            flows += list(fl.atoms(_self_attr(sn, f), fl.env_exit(), skip_index=True, builders=True))
+        bad = [x for x in flows if isinstance(x, ast.BinOp) and isinstance(x.op, ast.FloorDiv) or isinstance(x, ast.Call) and call_name(x) in ("floor_divide", "floor", "trunc", "rint", "round", "around", "fix")]
+        res.inst(f"{K.name}.centroids: no floor division / rounding on the flow of values to the centres", nontrivial=True, ok=not bad)
+        for x in bad[:1]:
+            res.find(K.name, "centroids", "floor division or rounding on the flow of values to the centres", f"{g.module.relpath}:{x.lineno}",
+                     "half a cell width computed with integer division is 0 for a unit cell: the centre of such a cell is reported at its corner "
+                     "(a coordinate is never the result of an integer division of a size)")
     # (b) signed cell sizes
     bm = p.cls("BlockModel")
     for name in ("u_cells", "v_cells", "z_cells", "centroids"):
@@ -689,4 +710,45 @@ def rule_parts(ctx) -> RuleResult:
     return res
 
 
-RULES = [rule_cache, rule_rot, rule_origin, rule_parts]
+def rule_alias(ctx) -> RuleResult:
+    import ast
+
+    from ._c17_flow import Flow, alias_origins, inplace_updates, key_of
+
+    res = RuleResult(
+        "C17.ALIAS",
+        "C17",
+        "a memoised geometry getter never updates in place (a[i] op= v, a op= v) an array that may be the very object held by another "
+        "attribute or returned by another property of the object (read without a copying operation, possibly on some paths only): "
+        "adding the origin into such an array writes the origin into that other cache",
+        floor=3,
+    )
+    p = ctx.p
+    done = set()
+    for base in ("GridObject", "Curve"):
+        for K in p.subclasses(p.cls(base)):
+            if K.synthetic:
+                continue
+            for prop, fld, getter in memo_getters(K):
+                if prop not in ("centroids", "parts") or getter in done:
+                    continue
+                done.add(getter)
+                g = ctx.view(getter)
+                sn = g.self_name or "self"
+                fl = Flow(g.node)
+                ups = inplace_updates(fl, g.node)
+                bad = []
+                for st, b, env in ups:
+                    for o, _oenv in alias_origins(fl, b, env):
+                        k = key_of(o) or ""
+                        if k.startswith(f"{sn}.") and k != f"{sn}.{fld}":
+                            bad.append((st, k))
+                res.inst(f"{getter.qualname}: {len(ups)} in-place updates, none on an array held elsewhere on the object", nontrivial=True, ok=not bad)
+                for st, k in bad[:1]:
+                    res.find(getter.cls.name, prop, "an array held by another attribute is updated in place", f"{getter.module.relpath}:{st.lineno}",
+                             f"the array updated here may be the object read from {k.replace(sn + '.', 'self.', 1)} (no copy on that path): the update — e.g. the origin "
+                             "shift — lands in that attribute's own cache and is applied again at the next computation")
+    return res
+
+
+RULES = [rule_cache, rule_rot, rule_origin, rule_parts, rule_alias]
